@@ -324,5 +324,23 @@ def run(rc):
 
 
 def replay(data):
-    from ..replay import replay_grammar_case
-    return replay_grammar_case(data)
+    """Re-runs the checks of one recorded (text, colours, modifiers, format) case."""
+    from ..runner import Merge
+    d = data['detail']
+    if 'text' not in d or 'mods' not in d:
+        print('replay: nothing executable in this record')
+        return 1
+
+    def colour(x):
+        from tatsu.ztyle.style import RGB
+        if x in (None, 'None'):
+            return None
+        mm = re.match(r'RGB\((\d+), (\d+), (\d+)\)', str(x)) or re.match(r'.*r=(\d+).*g=(\d+).*b=(\d+)', str(x))
+        return RGB(*map(int, mm.groups())) if mm else int(x)
+    m = Merge()
+    check_one(m, d['text'], colour(d.get('fg')), colour(d.get('bg')), tuple(d['mods']), d.get('spec', ''), 'replay')
+    for v in m.violations:
+        print(v['signature'], str(v['detail'])[:300])
+    if m.violations:
+        print('VIOLATION property=C20 replay=reproduced')
+    return 1 if m.violations else 0
